@@ -30,6 +30,8 @@ def stream_sessions(cases_path, ops_path):
     with open(ops_path, "w") as out:
         for line in vlib.read_lines(cases_path):
             b = json.loads(line)
+            if any("r2" in c for c in b["calls"]):
+                continue        # two-range accessors are explored at model level only (symbol_table needs real tables)
             out.write(json.dumps({"op": "session", "family": "mc-stream", "behaviour": n}) + "\n")
             out.write(json.dumps({"op": "buf", "slot": "file", "bytes": mini_elf(b["file"])}) + "\n")
             out.write(json.dumps({"op": "sopen", "es": "Any", "fileslot": "file",
